@@ -7,5 +7,5 @@ CONSTANTS
   Reqs <- TrNone
   TokRank <- TrRank
   MaxRoutes = 0
-INVARIANTS Report
+INVARIANTS Done
 CHECK_DEADLOCK FALSE
